@@ -40,7 +40,10 @@ def glif(name, g, layer):
     if layer.get("height") is not None:
         adv += f' height="{fnum(layer["height"])}"'
     L.append(f"  <advance {adv}/>")
-    for u in g.get("unicodes", []) if layer.get("_default", True) else []:
+    us = g.get("unicodes", []) if layer.get("_default", True) else []
+    if layer.get("_unicodes") is not None:
+        us = layer["_unicodes"]  # a non-default master that disagrees with the default about codepoints (the default decides)
+    for u in us:
         L.append(f'  <unicode hex="{u:04X}"/>')
     for a in layer.get("anchors", []):
         L.append(f'  <anchor name={quoteattr(a["name"])} x="{fnum(a["x"])}" y="{fnum(a["y"])}"/>')
@@ -99,6 +102,8 @@ def render(model, outdir, lib_in="designspace"):
     full = [m for m in model["masters"] if m["layer"] is None]
     sparse = [m for m in model["masters"] if m["layer"] is not None]
     for mi, m in enumerate(full):
+        if m.get("reuses_default_ufo"):
+            continue  # a second <source> pointing at the default master's UFO: nothing of its own on disk
         ufo = os.path.join(outdir, m["ufo"])
         os.makedirs(ufo, exist_ok=True)
         write_plist(os.path.join(ufo, "metainfo.plist"), {"creator": "verif.gen", "formatVersion": 3})
